@@ -112,10 +112,10 @@ def elemType : Val → Option Ty
   | .str _ => some (.strSz ⟨1, 1⟩)
   | _ => none
 
-/-- `Hash.Get(stringValue(name))` -/
-def hashGet (name : String) : List (Val × Val) → Option Val
-  | [] => none
-  | (k, v) :: es => (match k with | .str s => if s == name then some v else hashGet name es | _ => hashGet name es)
+/-- is this hash key the string `name`? (`Hash.Get(stringValue(name))` compares keys) -/
+def keyIsStr (name : String) : Val → Bool
+  | .str s => s == name
+  | _ => false
 
 mutual
 /-- Data = Variant[ScalarData, Undef, Array[Data], Hash[String, Data]] over a value -/
@@ -133,6 +133,11 @@ def instDataE : List (Val × Val) → Bool
   | (k, v) :: es => isStrKey k && instData v && instDataE es
 end
 
+/-- key type of RichData's Hash member: Variant[String, Numeric] -/
+def isRichKey : Val → Bool
+  | .str _ | .int _ | .float _ => true
+  | _ => false
+
 def isScalarVal : Val → Bool
   | .str _ | .int _ | .float _ | .bool _ | .tspan _ | .regexp _ => true
   | _ => false
@@ -149,7 +154,7 @@ def instRichL : List Val → Bool
   | v :: vs => instRich v && instRichL vs
 def instRichE : List (Val × Val) → Bool
   | [] => true
-  | (k, v) :: es => (match k with | .str _ | .int _ | .float _ => true | _ => false) && instRich v && instRichE es
+  | (k, v) :: es => isRichKey k && instRich v && instRichE es
 end
 
 mutual
@@ -182,7 +187,7 @@ def inst (t : Ty) (v : Val) : Bool :=
        | _ => false)
   | .array e r =>
       (match v with
-       | .array vs => r.contains vs.length && ((match e with | .any => true | _ => false) || instAll e vs)
+       | .array vs => r.contains vs.length && (e.isAny || instAll e vs)
        | _ => false)
   | .hash k x r => (match v with | .hash es => r.contains es.length && instEntries k x es | _ => false)
   | .tuple ts g =>
@@ -245,7 +250,7 @@ def hashGetW (n : String) (t : Ty) (es : List (Val × Val)) : Option Bool :=
   match es with
   | [] => none
   | (k, v) :: es =>
-    if (match k with | .str s => s == n | _ => false) then some (inst t v) else hashGetW n t es
+    if keyIsStr n k then some (inst t v) else hashGetW n t es
 termination_by t.w + Val.we es
 decreasing_by all_goals (simp_wf; simp only [Ty.w, Ty.wl, Ty.wm, Val.w, Val.wl, Val.we] at *; omega)
 end
